@@ -154,8 +154,17 @@ func VerifC10(args []string) {
 	w := newWorld(tree, "")
 	w.opsFail = true
 	w.failValue = len(args) > 3 && args[3] == "value"
+	decoy := len(args) > 3 && args[3] == "decoy"
+	decoyCalls := 0
 	for _, opts := range vfConfigs(args, 2) {
 		conf := w.config("keys", opts)
+		if decoy {
+			// operators registered under the names of built-in ones (by filling the map directly): the parser
+			// binds such a name to the built-in operator, so these are never invoked, at compile time or later
+			for _, name := range []string{"+", "/", ">", "=", "and", "or", "not", "in", "between", "xor", "add", "eq"} {
+				conf.OperatorMap[name] = func(_ *Ctx, _ []Value) (Value, error) { decoyCalls++; return int64(-777), nil }
+			}
+		}
 		conf.StatelessOperators = []string{"ghost"}
 		for _, name := range []string{"p", "q", "z", "y"} {
 			if vfDeclared(stateless, name) {
@@ -174,6 +183,7 @@ func VerifC10(args []string) {
 		if opts[0] == '0' {
 			vfAssert(w.pCalls == p0 && w.qCalls == q0 && w.zCalls == z0, "an operator was invoked during Compile although ConstantFolding is off under "+opts)
 		}
+		vfAssert(decoyCalls == 0, "an operator registered under a built-in name was invoked during Compile under "+opts)
 		otree, ok := refRead(Dump(e))
 		vfAssert(ok, "Dump output readable by the reference reader under "+opts)
 		// (5) variables survive unless a deciding constant operand of an enclosing and/or removes them
@@ -200,6 +210,7 @@ func VerifC10(args []string) {
 			want, werr := w.refEval(otree)
 			rp, rq, rz := w.pCalls-pc, w.qCalls-qc, w.zCalls-zc
 			vfReach("evaluated")
+			vfAssert(decoyCalls == 0, "an operator registered under a built-in name was invoked during evaluation under "+opts)
 			vfAssert(dp == rp && dq == rq && dz == rz, "evaluation does not invoke the registered operators as often as the optimised tree requires under "+opts)
 			// the run-time meaning of the SOURCE under the documented folding rule (orders preserved)
 			if opts[2] == '0' && opts[3] == '0' {
